@@ -49,8 +49,8 @@ Lemma unpack_chunk l : forall last cur done rest,
   unpack_go (pack_chunk last l ++ rest) last cur done
   = unpack_go rest (last_lid last l) (rev l ++ cur) done.
 Proof.
-  induction l as [|x r IH]; intros last cur done rest Hl Hf; simpl; auto.
-  inversion Hf as [|? ? Hx Hr]; subst.
+  induction l as [|x r IH]; intros last cur done rest Hl Hf; [reflexivity|].
+  inversion Hf as [|? ? Hx Hr]; subst. cbn [pack_chunk app unpack_go last_lid rev].
   assert (Hx' : 0 <= Z.of_N x < maxu32) by (unfold lid_ok, maxu32 in *; lia).
   rewrite (step_lid last (Z.of_N x) Hl Hx').
   destruct (Z.eqb_spec (Z.of_N x) maxu32) as [E|_]; [lia|].
@@ -62,42 +62,48 @@ Lemma unpack_marker last cur done rest :
   st_ok last ->
   unpack_go ((-1 - last) :: rest) last cur done = unpack_go rest last [] (rev cur :: done).
 Proof.
-  intros Hl. simpl. rewrite (step_marker last Hl). rewrite Z.eqb_refl.
+  intros Hl. cbn [unpack_go]. rewrite (step_marker last Hl). rewrite Z.eqb_refl.
   rewrite (step_restore last Hl). reflexivity.
 Qed.
+
+Lemma pack_from_cons last c rest isLast :
+  pack_from last (c :: rest) isLast
+  = pack_chunk last c ++ (if negb (is_nil rest) || isLast then [(-1 - last_lid last c)] else [])
+      ++ pack_from (last_lid last c) rest isLast.
+Proof. reflexivity. Qed.
 
 Lemma unpack_closed cs : forall last done,
   st_ok last -> Forall (Forall lid_ok) cs ->
   unpack_go (pack_from last cs true) last [] done = mkChunks (rev done ++ cs) true.
 Proof.
-  induction cs as [|c rest IH]; intros last done Hl Hf; simpl.
-  - rewrite app_nil_r. reflexivity.
+  induction cs as [|c rest IH]; intros last done Hl Hf.
+  - cbn. rewrite app_nil_r. reflexivity.
   - inversion Hf as [|? ? Hc Hr]; subst.
-    rewrite orb_true_r. rewrite unpack_chunk by auto.
-    simpl. rewrite unpack_marker by (apply last_lid_ok; auto).
+    rewrite pack_from_cons, orb_true_r. rewrite unpack_chunk by auto.
+    cbn [app]. rewrite unpack_marker by (apply last_lid_ok; auto).
     rewrite IH by (auto using last_lid_ok).
-    rewrite app_nil_r, rev_involutive. simpl. rewrite <- app_assoc. reflexivity.
+    rewrite app_nil_r, rev_involutive. cbn [rev]. rewrite <- app_assoc. reflexivity.
 Qed.
 
-Lemma unpack_open cs : forall last done,
-  st_ok last -> Forall (Forall lid_ok) cs -> cs <> [] -> last cs [] <> [] ->
-  unpack_go (pack_from last cs false) last [] done = mkChunks (rev done ++ cs) false.
+Lemma unpack_open cs : forall lst done,
+  st_ok lst -> Forall (Forall lid_ok) cs -> cs <> [] -> List.last cs [] <> [] ->
+  unpack_go (pack_from lst cs false) lst [] done = mkChunks (rev done ++ cs) false.
 Proof.
-  induction cs as [|c rest IH]; intros last done Hl Hf Hne Hlast; [congruence|].
+  induction cs as [|c rest IH]; intros lst done Hl Hf Hne Hlast; [congruence|].
   inversion Hf as [|? ? Hc Hr]; subst.
+  rewrite pack_from_cons.
   destruct rest as [|c2 rest'].
-  - simpl in *. rewrite app_nil_r. rewrite <- (app_nil_r (pack_chunk last c)).
-    rewrite unpack_chunk by auto. simpl. rewrite app_nil_r.
+  - cbn [is_nil negb orb pack_from app]. cbn [List.last] in Hlast.
+    rewrite unpack_chunk by auto. cbn [unpack_go]. rewrite app_nil_r.
     destruct c as [|x r]; [congruence|].
     destruct (rev (x :: r)) eqn:E.
     + apply (f_equal (@length N)) in E. rewrite rev_length in E. simpl in E. lia.
-    + rewrite <- E. rewrite rev_involutive. simpl. reflexivity.
-  - change (pack_from last (c :: c2 :: rest') false)
-      with (pack_chunk last c ++ [(-1 - last_lid last c)] ++ pack_from (last_lid last c) (c2 :: rest') false).
+    + rewrite <- E. rewrite rev_involutive. cbn [rev]. reflexivity.
+  - cbn [is_nil negb orb].
     rewrite unpack_chunk by auto.
-    simpl app at 1. rewrite unpack_marker by (apply last_lid_ok; auto).
+    cbn [app]. rewrite unpack_marker by (apply last_lid_ok; auto).
     rewrite IH; auto using last_lid_ok; try congruence.
-    rewrite app_nil_r, rev_involutive. simpl. rewrite <- app_assoc. reflexivity.
+    rewrite app_nil_r, rev_involutive. cbn [rev]. rewrite <- app_assoc. reflexivity.
 Qed.
 
 Theorem chunks_codec : forall c, chunks_wf c -> unpack (pack c) = c.
